@@ -598,9 +598,7 @@ impl Allocator {
     stats.intern_len = self.intern_cache.len() as u64;
     stats.temp_roots = self.temp_roots.len() as u64;
     for (key, value) in self.intern_cache.iter() {
-      let value_bytes: &str = value;
-      let addr = (value_bytes.as_ptr() as usize)
-        .wrapping_sub(crate::align_utils::get_array_offset::<crate::object::ObjHeader, u8>());
+      let addr = usize::from_str_radix(format!("{value:p}").trim_start_matches("0x"), 16).unwrap_or(0);
       if !live_strings.contains(&addr) {
         stats.intern_dangling += 1;
         continue;
